@@ -7,6 +7,7 @@ set -u
 SEED=$1; K=$2; DEMOPKG=$3; PROP=$4; shift 4
 CHECKS=${*:-$PROP}
 export GOFLAGS=-mod=mod GOPROXY=off
+if [ -n "$(git -C /repo status --porcelain)" ]; then echo "refusing: /repo has uncommitted changes (they would be lost by the revert step)"; exit 2; fi
 OUT=/verif/seeded/${PROP}_${K}
 mkdir -p $OUT
 cp $SEED/change$K.diff $OUT/patch.diff
